@@ -4,6 +4,7 @@ initialiser of k[] and the order initialise -> EvalRates -> use in every rendere
 guards in the rendered EvalRates; oracle: the guard evaluated at probe temperatures (below / at /
 between / above each bound) against Tmin <= T < Tmax with non-positive bounds unbounded, and exactly one
 active reaction among adjacent windows; KROME window fields."""
+import os
 import random
 import re
 import subprocess
@@ -260,7 +261,7 @@ def check_sequence(res, desc, tag):
         if not src_f.exists():
             src_f = d / "src" / f"{f}.cpp"
         text = src_f.read_text()
-        text = re.sub(r"(\b\w+)\s*<<<[^;]*?>>>\s*\(", r"\1(", text)       # kernel launches as plain calls; nothing else is touched
+        text = ol.rewrite_launches(text)       # kernel launches through SHIM_LAUNCH; nothing else is touched
         (d / "src" / f"{f}_host.cpp").write_text(text)
         srcs.append(str(d / "src" / f"{f}_host.cpp"))
     exe = d / "seq"
@@ -270,13 +271,21 @@ def check_sequence(res, desc, tag):
     if r.returncode != 0:
         res.violation("correspondence", f"cvode/cusparse: rendered sources do not compile for the host against the CUDA stand-in: {r.stdout[-500:]}", case)
     else:
-        run = lambda ts: subprocess.run([str(exe)] + [repr(t) for t in ts], stdout=subprocess.PIPE, text=True).stdout.splitlines()
-        together = run(order)
-        for k, T in enumerate(order):
-            alone = run([T])
-            if k >= len(together) or not alone or together[k].split() != alone[0].split():
-                res.violation("oracle", f"cvode/cusparse: system {k} of a batch (T={T}) gets another derivative than a batch holding this system alone: "
-                                        f"{(together[k] if k < len(together) else '')[:120]} vs {alone[0][:120] if alone else ''} (the other systems have T={order[:k]})", case)
+        run = lambda ts, th=1: subprocess.run([str(exe)] + [repr(t) for t in ts], stdout=subprocess.PIPE, text=True,
+                                              env=dict(os.environ, SHIM_THREADS=str(th))).stdout.splitlines()
+        # two launch geometries: one thread that serves every system in turn, and one thread per system (the package's own policy)
+        for th in (1, len(order), 2):
+            together = run(order, th)
+            bad = False
+            for k, T in enumerate(order):
+                alone = run([T])
+                if k >= len(together) or not alone or together[k].split() != alone[0].split():
+                    res.violation("oracle", f"cvode/cusparse, {th} thread(s) for {len(order)} systems: system {k} of a batch (T={T}) gets another derivative than a batch "
+                                            f"holding this system alone: {(together[k] if k < len(together) else '')[:120]} vs {alone[0][:120] if alone else ''} "
+                                            f"(the other systems have T={order[:k]})", dict(case, threads=th))
+                    bad = True
+                    break
+            if bad:
                 break
         res.count("sequence-run:cusparse")
     ol.cleanup_scratch()
